@@ -182,7 +182,7 @@ func c18Sweep(run *common.Run, maxLen int) {
 			}
 			cfg, perr, pan := call(sh.name == "env", args)
 			os.Unsetenv(c18EnvName[i])
-			where := fmt.Sprintf("%s=%s, arguments %q, call shape %s", c18EnvName[i], env, args, sh.name)
+			where := fmt.Sprintf("%s%s, arguments %q, call shape %s", c18EnvName[i], env, args, sh.name)
 			if pan != nil {
 				run.Report(common.Cex{Sig: fmt.Sprintf("parse-panic|var=%s|api=%s", c18OptName[i], sh.name),
 					Summary: fmt.Sprintf("panic in the configuration code with %s: %v", where, pan)})
